@@ -62,8 +62,9 @@ def recordWrite (s : Shard) (k : Nat) (v : Bytes) (exp : Option Nat) : Shard × 
       expiry := exp }
   ({ s with clock := clock', vclock := vclock', keys := NMap.insert k rv s.keys }, rv)
 
-/-- `record_delete` (→ `ReplicatedValue::delete`: only an LWW value is tombstoned; the delta is
-    produced either way) -/
+/-- `record_delete` (→ `ReplicatedValue::delete`: an LWW value is tombstoned; since the `fix:`
+    commit recorded in known_findings.json a hash value has every field tombstoned with one fresh
+    stamp; other kinds are left alone; the delta is produced in every case) -/
 def recordDelete (s : Shard) (k : Nat) : Shard × Option RV :=
   match NMap.get s.keys k with
   | none => (s, none)
@@ -72,6 +73,11 @@ def recordDelete (s : Shard) (k : Nat) : Shard × Option RV :=
     | .lww _ =>
       let clock' := s.clock.tick
       let rv' : RV := { rv with crdt := .lww (Lww.delete clock'), ts := clock' }
+      ({ s with clock := clock', keys := NMap.insert k rv' s.keys }, some rv')
+    | .hash h =>
+      let clock' := s.clock.tick
+      let rv' : RV :=
+        { rv with crdt := .hash (NMap.mapVal (fun _ => Lww.delete clock') h), ts := clock' }
       ({ s with clock := clock', keys := NMap.insert k rv' s.keys }, some rv')
     | _ => (s, some rv)
 
@@ -148,14 +154,14 @@ def step (s : Shard) : Op → Shard × Option RV
   | .recovered k v => (applyRecovered s k v, none)
 
 /-- is this op a local write that changes the stored value (and therefore must carry a fresh,
-    greater stamp)?  `write`/`hwrite` with at least one field always; `delete` of an LWW value;
+    greater stamp)?  `write`/`hwrite` with at least one field always; `delete` of an LWW or hash value;
     `hdelete` naming at least one stored field. -/
 def effective (s : Shard) : Op → Bool
   | .write _ _ _ => true
   | .hwrite _ fs => !fs.isEmpty
   | .delete k =>
     match NMap.get s.keys k with
-    | some rv => (match rv.crdt with | .lww _ => true | _ => false)
+    | some rv => (match rv.crdt with | .lww _ => true | .hash _ => true | _ => false)
     | none => false
   | .hdelete k fs =>
     match NMap.get s.keys k with
